@@ -78,25 +78,51 @@ theorem firstConfigured_inter (passes cfg : SrcSet) (h : cfg.subset passes = tru
 /-- leaf ↦ sources that do not reach FinalizeIssue there (in every wrapper) -/
 def gaps : List (String × SrcSet) := [
   -- the schema's own message is not consulted for issues raised by its checks
-  ("small-string", .ofString "s"), ("big-string", .ofString "s"), ("small-int", .ofString "s"), ("big-int", .ofString "s"),
-  ("small-float", .ofString "s"), ("small-map", .ofString "s"), ("small-record", .ofString "s"),
-  ("format-email", .ofString "s"), ("format-regex", .ofString "s"), ("format-starts", .ofString "s"),
-  ("format-includes", .ofString "s"), ("format-json", .ofString "s"), ("multiple-int", .ofString "s"), ("multiple-float", .ofString "s"),
-  ("small-set", .ofString "s"), ("format-lowercase", .ofString "s"), ("small-string-length", .ofString "s"), ("small-int-positive", .ofString "s"),
+  ("small-string", .ofString "s"),
+  ("big-string", .ofString "s"),
+  ("small-int", .ofString "s"),
+  ("big-int", .ofString "s"),
+  ("small-float", .ofString "s"),
+  ("small-map", .ofString "s"),
+  ("small-record", .ofString "s"),
+  ("format-email", .ofString "s"),
+  ("format-regex", .ofString "s"),
+  ("format-starts", .ofString "s"),
+  ("format-includes", .ofString "s"),
+  ("format-json", .ofString "s"),
+  ("multiple-int", .ofString "s"),
+  ("multiple-float", .ofString "s"),
+  ("small-set", .ofString "s"),
+  ("format-lowercase", .ofString "s"),
+  ("small-string-length", .ofString "s"),
+  ("small-int-positive", .ofString "s"),
   -- the same on derived inputs (prefault / coerced / overwritten values)
-  ("small-string-prefault", .ofString "s"), ("small-int-prefault", .ofString "s"), ("small-string-coerced", .ofString "s"),
-  ("small-string-trimmed", .ofString "s"), ("small-slice-prefault", .ofString "s"),
+  ("small-string-prefault", .ofString "s"),
+  ("small-int-prefault", .ofString "s"),
+  ("small-string-coerced", .ofString "s"),
+  ("small-string-trimmed", .ofString "s"),
+  ("small-slice-prefault", .ofString "s"),
   -- container / union / literal / network-format schemas ignore their own message for their type issue
-  ("type-array", .ofString "s"), 
-  ("type-literal", .ofString "s"), ("union", .ofString "s"), ("union-discriminated", .ofString "s"),
-  ("format-ipv4-type", .ofString "s"), ("format-url-type", .ofString "s"), ("union-xor", .ofString "s"),
+  ("type-array", .ofString "s"),
+  ("type-literal", .ofString "s"),
+  ("union", .ofString "s"),
+  ("union-discriminated", .ofString "s"),
+  ("format-ipv4-type", .ofString "s"),
+  ("format-url-type", .ofString "s"),
+  ("union-xor", .ofString "s"),
   -- container-level issues (the per-parse map reaches them since 7990727; the schema's own message still does not)
-  ("small-slice", .ofString "s"), ("big-slice", .ofString "s"), ("small-slice-nonempty", .ofString "s"), ("big-array-length", .ofString "s"),
-  ("keys-strict-object", .ofString "s"), 
+  ("small-slice", .ofString "s"),
+  ("big-slice", .ofString "s"),
+  ("small-slice-nonempty", .ofString "s"),
+  ("big-array-length", .ofString "s"),
+  ("keys-strict-object", .ofString "s"),
   -- issues raised with a preset message: nothing is consulted
-  ("type-field-missing", .ofString "spgl"), ("value-enum", .ofString "pgl"),
-  ("custom-refine-string", .ofString "spgl"), ("custom-refine-int", .ofString "spgl"),
-  ("custom-refine-object", .ofString "spgl"), ("custom-refine-slice", .ofString "spgl")]
+  ("type-field-missing", .ofString "spgl"),
+  ("value-enum", .ofString "pgl"),
+  ("custom-refine-string", .ofString "spgl"),
+  ("custom-refine-int", .ofString "spgl"),
+  ("custom-refine-object", .ofString "spgl"),
+  ("custom-refine-slice", .ofString "spgl")]
 
 def gapOf (leaf : String) : SrcSet := (gaps.lookup leaf).getD SrcSet.empty
 
